@@ -13,6 +13,7 @@ EXPLANATION = (
     "next_back), each (k.clone(), v.clone()) pair is inserted with put (which attaches at the MRU end), and cap / hasher / callback of the "
     "new cache come from self. R3 independence: head, tail and map of the clone are freshly constructed, no node pointer of self is stored "
     "in it. Observational equivalence under all futures follows from equal state plus determinism (C17) and is not itself executed."
+    " R1 also requires that clone() passes nothing to a function of this crate by mutable reference: a copied field goes into the clone as it is."
 )
 TRUSTED_BASE = ["MIR facts", "<T as Clone>::clone of field types outside the crate (Vec, arrays, hashers) is a faithful copy"]
 
